@@ -150,6 +150,14 @@ def ircTail (enc : Bytes) (s : Bytes) : Nat → Nat → Int
       else ircTail enc s fuel (i + 1)
     else -1
 
+/-- `if s[i] != cl { o := IndexByte(s[i+1:], cl); if o < 0 { return -1 }; i += o + 1 }`:
+    the next position at or after `i` that holds `cl`, `none` for the early `return -1` -/
+def ircNext (cl : UInt8) (s : Bytes) (i : Nat) : Option Nat :=
+  if s.getD i 0 ≠ cl then
+    let o := stdIndexByte (s.drop (i + 1)) cl
+    if o < 0 then none else some (i + o.toNat + 1)
+  else some i
+
 /-- the search loop of indexRuneCase for an `n`-byte rune (`n = enc.length ∈ {2,3,4}`):
     search for the last byte, check the preceding bytes, give up on IndexByte after too many
     false positives.  `i` and `fails` are the Go loop variables. -/
@@ -159,11 +167,9 @@ def ircLoop (cfg : Cfg) (enc : Bytes) (s : Bytes) : Nat → Nat → Nat → Int
     let n := enc.length
     let cl := enc.getD (n - 1) 0
     if i < s.length then
-      -- `if s[i] != cl { o := IndexByte(s[i+1:], cl); if o < 0 { return -1 }; i += o + 1 }`
-      let o : Int := if s.getD i 0 ≠ cl then stdIndexByte (s.drop (i + 1)) cl else 0
-      if o < 0 then -1
-      else
-        let i := if s.getD i 0 ≠ cl then i + o.toNat + 1 else i
+      match ircNext cl s i with
+      | none => -1
+      | some i =>
         if i ≥ s.length ∨ i + 1 < n then fault
         else if enc.isPrefixOf (s.drop (i + 1 - n)) then ((i + 1 - n : Nat) : Int)
         else
